@@ -149,6 +149,7 @@ def backend_shared(ctx):
 def i6_corpus(seed, tier):
     rnd = random.Random(seed * 104729 + 7)
     gs = [('c_' + k, genrun.fix_tags(g)) for k, g in gram.curated().items()]
+    gs += [('e_' + k, genrun.fix_tags(g)) for k, g in gram.edge_grammars().items()]
     n = 100 if tier == 'quick' else 600
     for i in range(n):
         if i % 5 == 4:
